@@ -180,7 +180,10 @@ impl Array {
 
     fn index_or_insert(&mut self, val: &Val) -> Result<&mut Val, ValError> {
         match val {
-            Val::Number(n) => Ok(self.index_arr_or_insert(*n as usize)),
+            Val::Number(n) => (*n as usize)
+                .checked_add(1)
+                .map(|_| self.index_arr_or_insert(*n as usize))
+                .ok_or_else(|| ValError::InvalidKey(val.clone())),
             Val::Undefined => Ok(self.index_dict_or_insert(DictKey::Undefined)),
             Val::Null => Ok(self.index_dict_or_insert(DictKey::Null)),
             Val::Boolean(b) => Ok(self.index_dict_or_insert(DictKey::Boolean(*b))),
